@@ -16,7 +16,7 @@ func init() {
 		ID: "C09", Fn: c09,
 		Rule:        "one evaluation = one predicate call compared with refchess: HasCheck per position (cached flag exercised before/after do-undo, and after every undo of moves and null moves inside a search-like walk on one position object), IsAttacked and AttacksTo for all 64 squares x both colours (each call under recover), GivesCheck / IsLegalMove / DoMove+WasLegalMove for every pseudo-legal move, the two legality tests also on a position object just set up from the FEN on which nothing else was asked before; distinct = distinct position identities probed",
 		Assumptions: []string{"E1/E2 en-passant conventions: required when the ep capture is legal, tolerated when it is only pseudo-legal, forbidden otherwise (incl. for the colour that just pushed)"},
-		Required:    []string{"positions", "attack_queries", "moves_checked", "ep_target_a_or_h_file", "ep_positions_white_to_move", "ep_positions_black_to_move", "e1_required", "e2_required", "castling_pseudo_illegal", "gives_check_true", "discovered_check_by_ep", "in_check_positions", "walk_hascheck_tests", "walk_null_moves", "cold_legality_tests"},
+		Required:    []string{"positions", "attack_queries", "moves_checked", "ep_target_a_or_h_file", "ep_positions_white_to_move", "ep_positions_black_to_move", "e1_required", "e2_required", "castling_pseudo_illegal", "gives_check_true", "discovered_check_by_ep", "in_check_positions", "walk_hascheck_tests", "walk_null_moves", "cold_legality_tests", "heavy_trade_down_games", "heavy_game_phase_counter_zero_with_sliders"},
 		MinEvals:    50000,
 	})
 }
@@ -260,6 +260,70 @@ func c09(c *Ctx) {
 			rep.Sample(map[string]interface{}{"fen": g.Start.FEN(), "queries": "HasCheck, 64x2 IsAttacked/AttacksTo, GivesCheck/IsLegalMove/WasLegalMove for all pseudo-legal moves"})
 		}
 	})
+	// trade-down games from boards crowded with heavy pieces (as after many promotions), with
+	// captures by king and pawns preferred: the incremental bookkeeping of the position
+	// (material, game phase) goes through its extremes while sliders are still on the board
+	nHeavy := c.Size(160, 6000)
+	for hi := 0; hi < nHeavy; hi++ {
+		if !c.Mine(hi) {
+			continue
+		}
+		hr := SubRng(c.Seed, "c09/heavy", hi)
+		hb := heavyPosition(hr)
+		// a few pawns, so that pawn captures exist too
+		for k := 0; k < 6; k++ {
+			sq := 8 + hr.Intn(48)
+			if hb.Sq[sq] == 0 {
+				nb := *hb
+				nb.Sq[sq] = "Pp"[hr.Intn(2)]
+				if nb.Validate() == nil && len(nb.Legal()) > 0 {
+					hb = &nb
+				}
+			}
+		}
+		p := engPos(hb.FEN())
+		b := hb
+		var played []string
+		for ply := 0; ply < 90; ply++ {
+			ms := b.Legal()
+			if len(ms) == 0 {
+				break
+			}
+			var kp, caps []rc.Move
+			for _, m := range ms {
+				if b.Sq[m.To] != 0 {
+					caps = append(caps, m)
+					if pc := b.Sq[m.From]; pc == 'K' || pc == 'k' || pc == 'P' || pc == 'p' {
+						kp = append(kp, m)
+					}
+				}
+			}
+			m := ms[hr.Intn(len(ms))]
+			if len(kp) > 0 && hr.Chance(0.8) {
+				m = kp[hr.Intn(len(kp))]
+			} else if len(caps) > 0 && hr.Chance(0.85) {
+				m = caps[hr.Intn(len(caps))]
+			}
+			p.DoMove(toEng(m))
+			b = b.Apply(m)
+			played = append(played, m.UCI())
+			sliders := false
+			for _, pc := range b.Sq {
+				switch pc {
+				case 'Q', 'R', 'B', 'q', 'r', 'b':
+					sliders = true
+				}
+			}
+			zero := p.GamePhase() == 0 && sliders
+			if zero {
+				rep.Inc("heavy_game_phase_counter_zero_with_sliders")
+			}
+			if zero || ply%6 == 5 {
+				probe(p, b, "by-play-heavy", map[string]interface{}{"start": hb.FEN(), "moves": append([]string(nil), played...)})
+			}
+		}
+		rep.Inc("heavy_trade_down_games")
+	}
 	// dedicated ep sweep: ep targets on every file, both colours, with and without capturers
 	idx := 0
 	for f := 0; f < 8; f++ {
